@@ -47,6 +47,22 @@ def clone_node(obj, **kwargs):
     return new
 
 
+class Partial(object):
+    """Evaluation cuts cycles (recursive functions, cyclic assignments and class
+    hierarchies) by answering a re-entrant question with a placeholder. A value
+    computed from such a partial answer depends on where the cycle was entered:
+    memos must not keep it. ``count`` is the number of partial answers so far."""
+    count = 0
+    # > 0 while the receivers of attribute assignments are being evaluated: attribute
+    # tables are then the static ones (class bodies only), see SourceScope.assigns
+    static = 0
+
+
+def partial_answer():
+    # type: () -> None
+    Partial.count += 1
+
+
 class cached_property(object):  # type: ignore[no-redef]
     cached = True
 
@@ -57,7 +73,10 @@ class cached_property(object):  # type: ignore[no-redef]
     def __get__(self, obj, cls):  # type: ignore[no-untyped-def]
         if obj is None:
             return self
-        value = obj.__dict__[self.func.__name__] = self.func(obj)
+        before = Partial.count
+        value = self.func(obj)
+        if Partial.count == before:
+            obj.__dict__[self.func.__name__] = value
         return value
 
 
@@ -75,7 +94,10 @@ def context_property(func):
             except KeyError:
                 pass
 
-        val = cv[func.__name__] = func(self, ctx, *args, **kwargs)
+        before = Partial.count
+        val = func(self, ctx, *args, **kwargs)
+        if Partial.count == before:
+            cv[func.__name__] = val
         return val
     return inner
 
